@@ -293,10 +293,11 @@ def body_lines_track(rng, prof, tr: TrackSrc):
             for l, ln in ls:
                 blk.append((g.tick, l, ln))
         flags = []
+        # flag lines may carry any length: it never contributes (C03)
         if g.forced:
-            flags.append((g.tick, 5, 0))
+            flags.append((g.tick, 5, rng.choice([0, 0, rng.randint(1, 2000)])))
         if g.tap:
-            flags.append((g.tick, 6, 0))
+            flags.append((g.tick, 6, rng.choice([0, 0, rng.randint(1, 2000)])))
         if g.open_len is None:
             # flags may sit anywhere among lane lines
             for f in flags:
